@@ -67,12 +67,17 @@ def crawl_site(chk: Check, site: driver.Site, view: str, kind_of: typing.Dict[by
             continue
         tag = "root" if entry is None else ("search" if entry.search else (entry.type or kind_of.get(entry.selector, "?")))
         chk.case((view, ctx.split(":")[0], tag, v.klass, _nameclass(entry)), sample if followed % 53 == 1 else None)
-        if v.klass in ("menu", "info") and (entry is None or not entry.search):
+        descend = v.klass in ("menu", "info") or (v.klass == "any" and (entry is None or entry.type in (None, "1")))
+        if descend and (entry is None or not entry.search):
             try:
-                entries = crawl.entries_of(view, v)
+                entries = crawl.entries_if_menu(view, resp, v)
             except Exception as e:  # parser of the listing
                 chk.witness("C05/listing-unreadable:%s:%s" % (fam, type(e).__name__), dict(sample, error=repr(e)))
                 continue
+            if entries is None:
+                continue
+            if v.klass == "any":
+                chk.count("archive_listings_descended")
             for e in entries:
                 if e.local is None:
                     chk.count("info_lines")
@@ -122,7 +127,8 @@ def extra_names(rng, model: sites.SiteModel) -> None:
               "semi;colon.txt", "quote\"d.txt", "tick'd.txt", "<angle>.txt", "hash#tag.txt", "plus+plus.txt",
               "a b 12", "back\\slash.txt", "tilde~.txt", "colon:name.txt", "@at.txt", "sub dir/in ner.txt",
               "wapdir/inner.txt", "café d/été.txt", "wap/notes.txt", "wap/phones/list.txt", "sale%20off.txt", "a%41.txt",
-              "pct%2Fdir/50%25.txt"]:
+              "pct%2Fdir/50%25.txt", "form\x0cfeed.txt", "vt\x0btab.txt", "fs\x1csep.txt", "nel\u0085next.txt", "ls\u2028sep.txt",
+              "ff\x0cdir/inner.txt"]:
         data = "content of %s\n" % n
         t.file(n, data)
         model.add(b"/" + n.encode(), "doc", data.encode(), mime="text/plain" if n.endswith(".txt") else None, tags=["file", "extra"])
